@@ -4,6 +4,7 @@ import HcipyVerif.Lemmas.ApertureKeck
 import HcipyVerif.Lemmas.AperturePolar
 import HcipyVerif.Lemmas.AperturePolarInexact
 import HcipyVerif.Lemmas.ApertureStat
+import HcipyVerif.Lemmas.AperturePupil
 
 /-!
 # C12 — Apertures depend only on the physical points, not on the grid representation
@@ -25,7 +26,7 @@ All theorems are about `HcipyVerif.Aperture` (Model/Aperture.lean), the model of
   `as_('cartesian')` (→ `evalPts`) for every other maker.
 
 All four are executed by the driver (`C12 eval sep|pts|polar`, `C12 regsub`, `C12 keck`, `C12 vlt`,
-`C12 super`, `C12 superstat`, `C12 superlist`) and compared with the running code — values, and for the regular polygon also the
+`C12 hexpos`, `C12 hexpupil`, `C12 hicat`, `C12 super`, `C12 superstat`, `C12 superlist`) and compared with the running code — values, and for the regular polygon also the
 bounding slices / the mask and the sub-array that `func(grid, return_with_mask=True)` returns.
 
 Every statement holds for **all** axis lists (any length, unsorted, repeated values) and all
@@ -554,7 +555,193 @@ theorem vlt_segment_representation_independent {ro ri : Rat} (ho : 0 ≤ ro) (hi
     have h2 : rabs ro = ro := by unfold rabs; simp [ho]
     rw [h1, h2]; exact hio
 
+/-! ## the hexagonally segmented telescope pupils inside the model (round 5)
+
+`HexCfg` (Model/AperturePupil.lean) = `make_luvoir_a_aperture`, `make_luvoir_b_aperture`, `make_elt_aperture`,
+`make_tmt_aperture` (and `make_keck_aperture`): the lattice of segment centres, the `Grid.subset` calls that
+drop segments, the segmented aperture, the central obscuration, the spiders (product or loop form) and the
+list of returned segments are all computed by the model (`C12 hexpos`, `C12 hexpupil`); `HicatCfg` =
+`make_hicat_aperture` (`C12 hicat`). -/
+
+/-- **which segments are dropped**: the successive `subset` calls keep exactly the lattice sites that satisfy
+every criterium, each decided at that site alone (`selKeeps`: the criterium's aperture value at the site) —
+order and multiplicity of the sites are preserved, no site's fate depends on the other sites -/
+theorem dropped_segments_pointwise (sels : List Sel) (pos : List Pt) :
+    selectPositions sels pos = pos.filter fun p => sels.all fun s => selKeeps s p :=
+  selectPositions_eq_filter' sels pos
+
+/-- the kept segment centres are a sub-list of the hexagonal lattice, at most `1 + 3n(n+1)` of them -/
+theorem kept_segments_sublattice (c : HexCfg) :
+    c.positions.Sublist (hexPositions c.rings c.pitch c.ap) ∧
+      c.positions.length ≤ 1 + 3 * c.rings * (c.rings + 1) := by
+  have h : c.positions.Sublist (hexPositions c.rings c.pitch c.ap) := by
+    rw [HexCfg.positions, selectPositions_eq_filter']
+    exact List.filter_sublist
+  exact ⟨h, by simpa [hexPositions_length] using h.length_le⟩
+
+/-- the composed pupil takes the fast path to the point semantics on every separated grid … -/
+theorem hexpupil_fast_path_eq_inside (c : HexCfg) (h : WF c.segment) (xs ys : List Rat) :
+    evalSep c.shape xs ys = (sepPoints xs ys).map (val c.shape) :=
+  evalSep_eq_val _ xs ys (hexcfg_wf c h)
+
+/-- … hence the same field on a separated grid and on the unstructured grid with the same points -/
+theorem hexpupil_representation_independent (c : HexCfg) (h : WF c.segment) (xs ys : List Rat) :
+    evalSep c.shape xs ys = evalPts c.shape (sepPoints xs ys) :=
+  evalSep_eq_evalPts _ xs ys (hexcfg_wf c h)
+
+/-- … and on a polar grid (the central obscuration of TMT/Keck takes the radius shortcut there) -/
+theorem hexpupil_polar_representation_independent (c : HexCfg) (h : ∀ R, c.obs = some R → 0 ≤ R)
+    (qs : List PPt) (hq : ∀ q ∈ qs, PolarPt q) :
+    evalPolar c.shape qs = evalPts c.shape (qs.map toCart) := by
+  rw [evalPolar_eq_val _ qs (hexcfg_polarWF c h) hq, evalPts_eq_val]
+
+/-- every segment of `return_segments=True` (with the spiders / obscuration the maker wraps around it) is
+representation independent as well -/
+theorem hexpupil_segment_representation_independent (c : HexCfg) (h : WF c.segment) :
+    ∀ s ∈ c.segmentShapes, ∀ xs ys, evalSep s xs ys = evalPts s (sepPoints xs ys) :=
+  fun s hs xs ys => evalSep_eq_evalPts s xs ys (hexcfg_segment_wf c h s hs)
+
+/-- one returned segment per kept centre (and transmission) -/
+theorem hexpupil_segment_count (c : HexCfg) :
+    c.segmentShapes.length = min c.positions.length c.trs.length := by
+  simp [HexCfg.segmentShapes, HexCfg.segs]
+
+/-- values in [0,1] for transmissions in [0,1], whatever is dropped and whichever flags are set -/
+theorem hexpupil_in_unit_interval (c : HexCfg) (htr : ∀ t ∈ c.trs, 0 ≤ t ∧ t ≤ 1) (p : Pt) :
+    0 ≤ val c.shape p ∧ val c.shape p ≤ 1 := by
+  rw [val_shape]
+  have hseg : ∀ s ∈ c.segs, 0 ≤ s.2 ∧ s.2 ≤ 1 := by
+    intro s hs
+    obtain ⟨a, b⟩ := s
+    exact htr b (List.of_mem_zip hs).2
+  have h1 : 0 ≤ segFold (val c.segment) p c.segs 0 ∧ segFold (val c.segment) p c.segs 0 ≤ 1 :=
+    seg_val_in_unit_interval (a := c.segment) (p := p) hseg
+  have h2 : 0 ≤ obsFactor c.obs p ∧ obsFactor c.obs p ≤ 1 := by
+    rcases obsFactor_cases c.obs p with h | h <;> rw [h] <;> constructor <;> norm_num
+  have h3 : 0 ≤ spFactor c.hw p c.spiders ∧ spFactor c.hw p c.spiders ≤ 1 := by
+    rcases spFactor_cases c.hw p c.spiders with h | h <;> rw [h] <;> constructor <;> norm_num
+  exact mul_mem_unit (mul_mem_unit h1 h2) h3
+
+/-- **the segment list is consistent with the pupil (1)**: at every point the pupil is 0 or has exactly the
+value of one of the returned segments (a segment that covers the point) — any transmissions -/
+theorem hexpupil_value_is_a_segment (c : HexCfg) (hb : Binary c.segment) (p : Pt) :
+    val c.shape p = 0 ∨ ∃ s ∈ c.segmentShapes, val c.shape p = val s p := by
+  rcases segFold_cover (val c.segment) p c.segs 0 with ⟨_, h0⟩ | ⟨s, hs, hc, hv⟩
+  · left; rw [val_shape, h0]; ring
+  · right
+    refine ⟨decorateSegment c (baseSegment c.segment s), List.mem_map.mpr ⟨s, hs, rfl⟩, ?_⟩
+    have h1 : val c.segment (shiftPt s.1.1 s.1.2 p) = 1 := by
+      rcases binary_val hb (shiftPt s.1.1 s.1.2 p) with h | h
+      · rw [h] at hc; norm_num at hc
+      · exact h
+    rw [val_shape, val_decorateSegment, val_baseSegment, hv, h1]
+    ring
+
+/-- **(2)**: with unit transmissions no returned segment exceeds the pupil anywhere … -/
+theorem hexpupil_segment_le_pupil (c : HexCfg) (hb : Binary c.segment) (htr : ∀ t ∈ c.trs, t = 1) (p : Pt) :
+    ∀ s ∈ c.segmentShapes, val s p ≤ val c.shape p := by
+  intro s hs
+  obtain ⟨pt, hpt, rfl⟩ := List.mem_map.mp hs
+  have hunit : ∀ s ∈ c.segs, s.2 = 1 := by
+    intro s hs
+    obtain ⟨a, b⟩ := s
+    exact htr b (List.of_mem_zip hs).2
+  have hnn : 0 ≤ val c.shape p :=
+    (hexpupil_in_unit_interval c (fun t ht => by rw [htr t ht]; constructor <;> norm_num) p).1
+  rw [val_decorateSegment, val_baseSegment, hunit pt hpt]
+  rcases binary_val hb (shiftPt pt.1.1 pt.1.2 p) with h | h
+  · rw [h]; simpa using hnn
+  · rcases segFold_cover (val c.segment) p c.segs 0 with ⟨hno, _⟩ | ⟨s', hs', _, hv⟩
+    · exact absurd (by rw [h]; norm_num) (hno pt hpt)
+    · rw [val_shape, hv, hunit s' hs', h]
+      exact le_of_eq (by ring)
+
+/-- **(3) pupil = union of the returned segments** (unit transmissions): the pupil is 1 exactly where some
+returned segment is 1 -/
+theorem hexpupil_union_of_segments (c : HexCfg) (hb : Binary c.segment) (htr : ∀ t ∈ c.trs, t = 1) (p : Pt) :
+    val c.shape p = 1 ↔ ∃ s ∈ c.segmentShapes, val s p = 1 := by
+  constructor
+  · intro h1
+    rcases hexpupil_value_is_a_segment c hb p with h | ⟨s, hs, h⟩
+    · rw [h] at h1; norm_num at h1
+    · exact ⟨s, hs, by rw [← h, h1]⟩
+  · rintro ⟨s, hs, h1⟩
+    have hle := hexpupil_segment_le_pupil c hb htr p s hs
+    have hub := (hexpupil_in_unit_interval c (fun t ht => by rw [htr t ht]; constructor <;> norm_num) p).2
+    rw [h1] at hle
+    exact le_antisymm hub hle
+
+/-- the HiCAT pupil (contour − central segment, × segmentation, × spiders) is representation independent -/
+theorem hicat_representation_independent (c : HicatCfg) (hA : WF c.segA) (hB : WF c.segB) (hC : WF c.central)
+    (xs ys : List Rat) :
+    evalSep c.shape xs ys = evalPts c.shape (sepPoints xs ys) ∧
+      evalSep c.shape xs ys = (sepPoints xs ys).map (val c.shape) :=
+  ⟨evalSep_eq_evalPts _ xs ys (hicat_wf c hA hB hC), evalSep_eq_val _ xs ys (hicat_wf c hA hB hC)⟩
+
+/-- … and so is every returned HiCAT segment (`func(grid) * seg(grid)`) -/
+theorem hicat_segment_representation_independent (c : HicatCfg) (hA : WF c.segA) (hB : WF c.segB)
+    (hC : WF c.central) : ∀ s ∈ c.segmentShapes, ∀ xs ys, evalSep s xs ys = evalPts s (sepPoints xs ys) := by
+  intro s hs xs ys
+  obtain ⟨pt, _, rfl⟩ := List.mem_map.mp hs
+  exact evalSep_eq_evalPts _ xs ys ⟨hicat_wf c hA hB hC, hB, trivial⟩
+
+/-! ## which side of a decision boundary the model takes (round 5)
+
+Where a maker's decision is exactly representable in floating point (dyadic sizes and centres, axis-aligned) the
+harness compares ON the boundary too (`run_exact_boundary`, tolerance 0).  The sides: apertures are **closed**
+(`<=`), obstructing spiders are closed as well — so the *transmitted* set of a spider is open —, the half-plane
+tests of the VLT quadrants are **strict**. -/
+
+/-- the rectangle is closed: value 1 exactly where `|x − cx| ≤ hx ∧ |y − cy| ≤ hy`, edges and corners included -/
+theorem rect_boundary_closed (hx hy cx cy : Rat) (p : Pt) :
+    val (.rect hx hy cx cy) p = 1 ↔ |p.1 - cx| ≤ hx ∧ |p.2 - cy| ≤ hy := by
+  simp only [val, inRect, rabs_eq_abs]
+  by_cases h1 : |p.1 - cx| ≤ hx <;> by_cases h2 : |p.2 - cy| ≤ hy <;> simp [h1, h2, b2r]
+
+/-- the circle is closed: value 1 exactly where `(x − cx)² + (y − cy)² ≤ r²`, the rim included (also `r = 0`:
+the centre alone) -/
+theorem circle_boundary_closed (r cx cy : Rat) (p : Pt) :
+    val (.circle r cx cy) p = 1 ↔ (p.1 - cx) * (p.1 - cx) + (p.2 - cy) * (p.2 - cy) ≤ r * r := by
+  simp only [val, inCircle, sq]
+  by_cases h : (p.1 - cx) * (p.1 - cx) + (p.2 - cy) * (p.2 - cy) ≤ r * r <;> simp [h, b2r]
+
+/-- an axis-aligned finite spider (`c = 1, s = 0`) blocks its closed rectangle: transmitted (value 1) exactly
+**strictly** outside, i.e. the edges `|y − sy| = hw`, `|x − sx| = hl` are dark -/
+theorem spider_boundary_blocked (sx sy hl hw : Rat) (p : Pt) :
+    val (.spider sx sy 1 0 hl hw) p = 0 ↔ |p.1 - sx| ≤ hl ∧ |p.2 - sy| ≤ hw := by
+  simp only [val, inSpider, mul_one, mul_zero, add_zero, sub_zero, abs_le]
+  by_cases h1 : p.1 - sx ≤ hl <;> by_cases h2 : -hl ≤ p.1 - sx <;> by_cases h3 : p.2 - sy ≤ hw <;>
+    by_cases h4 : -hw ≤ p.2 - sy <;> simp [h1, h2, h3, h4, b2r]
+
+/-- an infinite spider along +x (`angle = 0`; the start point is *added*, as the code has it) blocks the closed
+half-strip `x + px ≥ 0`, `|y + py| ≤ hw` -/
+theorem spider_infinite_boundary_blocked (px py hw : Rat) (p : Pt) :
+    val (.spiderInf px py 1 0 hw) p = 0 ↔ 0 ≤ p.1 + px ∧ |p.2 + py| ≤ hw := by
+  simp only [val, inSpiderInf, mul_one, mul_zero, add_zero, sub_zero, abs_le]
+  by_cases h1 : 0 ≤ p.1 + px <;> by_cases h3 : p.2 + py ≤ hw <;> by_cases h4 : -hw ≤ p.2 + py <;>
+    simp [h1, h3, h4, b2r]
+
+/-- the half-plane tests of the VLT quadrants are strict: a point on the line belongs to neither side -/
+theorem halfplane_boundary_open (gt : Bool) (a b c : Rat) (p : Pt) (h : a * p.1 + b * p.2 = c) :
+    val (.halfplane gt a b c) p = 0 := by
+  cases gt <;> simp [val, inHalf, h, b2r]
+
 /-! ## the hypotheses are satisfiable -/
+
+example : WF (HexCfg.mk 1 1 (7/16) [.nonzero (.disk 1)] (.regpoly true 1 (7/8) [(1, 0)] 0 0) [1, 1] (some (1/4))
+    [(0, 0, 1, 0)] (1/16) true).segment := by
+  show (0 : Rat) ≤ 1
+  norm_num
+
+example : Binary (HexCfg.mk 1 1 (7/16) [.nonzero (.disk 1)] (.regpoly true 1 (7/8) [(1, 0)] 0 0) [1, 1] (some (1/4))
+    [(0, 0, 1, 0)] (1/16) true).segment := Binary.regpoly ..
+
+example : ∀ R, (HexCfg.mk 1 1 (7/16) [] (.regpoly true 1 (7/8) [(1, 0)] 0 0) [1, 1] (some (1/4)) [] 0 true).obs = some R →
+    0 ≤ R := by
+  intro R h
+  simp at h
+  rw [← h]; norm_num
+
 
 example : WF (.seg [((0, 0), 1/2)] (.rot 1 0 (.regpoly true 1 (7/8) [(1, 0), (0, 1)] 0 0))) := by
   show (0 : Rat) ≤ 1
